@@ -402,6 +402,14 @@ func CheckMain(args []string) int {
 		if len(results) == 0 {
 			boundDone = -1
 		}
+		if os.Getenv("VERIF_VERBOSE") != "" {
+			sort.Slice(results, func(i, k int) bool { return results[i].Stats.Executions > results[k].Stats.Executions })
+			for i, r := range results {
+				if i < 25 {
+					fmt.Fprintf(os.Stderr, "job %s %v bound=%d execs=%d exhaustive=%v\n", r.Job.Family, r.Job.Params, r.Job.Bound, r.Stats.Executions, r.Stats.Exhaustive)
+				}
+			}
+		}
 		cov["states"] = execs
 		cov["transitions"] = steps
 		cov["traces_validated_against_impl"] = execs
